@@ -19,7 +19,7 @@ A. luna.gateware.usb.usb3.application.request.SuperSpeedSetupDecoder
 B. luna.gateware.usb.usb3.application.descriptor.GetDescriptorHandler(collection)
    Workload: collection of 1-7 descriptors (type, index, 1..90 bytes; plain list of tuples, or a real
    usb_protocol DeviceDescriptorCollection filled with the same raw descriptors), 14-26 requests: value = (type << 8 | index)
-   present, absent, or differing in one bit from a present one; wLength in {0, 1..5, len-1, len, len+1, len+8, 256*k + (0..len),
+   present, absent, differing in one bit from a present one, or an alias (type or index alone, mixed from two descriptors); wLength in {0, 1..5, len-1, len, len+1, len+8, 256*k + (0..len),
    0xFFFF, random}; value / length set 0-3 cycles before the one-cycle `start`; `tx.ready` profiles (always / random /
    bursty / low until valid / low on the last word).
    Oracle: known descriptor -> words on `tx` (transfer = valid != 0 & ready) concatenate to desc[:min(wLength, len)], all
@@ -29,6 +29,18 @@ B. luna.gateware.usb.usb3.application.descriptor.GetDescriptorHandler(collection
 
 Deviations from DESIGN section 7: none in substance; the "non-setup packet between a short setup packet and the next one"
 pattern is generated on purpose and both of its consequences (false report, missed SETUP) have their own mechanism names.
+
+Findings on the unchanged tree (findings/C48.md): a setup-flagged packet of 4..7 bytes that is reported good leaves the
+decoder waiting for a second word; the next 4-byte packet completes a bogus SETUP (`short_setup_packet_completed_by_later_
+packet`) or the next correct SETUP is lost (`setup_missed_after_short_setup_packet`).  The classifier is narrow: the false
+report must consist of exactly the first word of the short packet plus the 4-byte packet, the miss must directly follow a
+good short setup packet (only sub-word packets in between).  With the proposed one-line fix the check holds.
+
+Mutations (93 repository tests pass for each), all caught by the quick tier: second word accepted without `last`,
+tx_length = requested length (DESIGN section 10); `first` not required, rx_bad ignored in WAIT_FOR_VALID, rx_bad ignored in
+PARSE_SECOND, setup flag ignored, partial second word accepted, first word accepted when partial; unknown descriptor not
+stalled, wLength truncated to 8 bits, buffer stage never loaded while tx.ready is low, generator advanced although the
+buffered word was not taken, descriptor selected by index alone.
 
 Not judged: `first` on the descriptor stream, the contents of the invalid byte lanes, `tx_length` after the first valid
 cycle, a `start` while a descriptor is still being streamed, value/length changes during a stream (the setup packet is
@@ -47,7 +59,7 @@ RULE = ("case = decoder session (50-110 data packets: setup flag x 0..16 bytes x
 REQUIRED_BINS = ["setup8_good", "setup8_bad", "setup8_aborted", "setup_short_good", "setup_long_good", "setup_zero_length", "nonsetup8_good",
                  "nonsetup4_after_short_setup", "valid_setup_after_short_setup", "good_setup_after_bad_setup", "word_gap_inside_setup",
                  "verdict_delay_1", "verdict_delay_ge_4", "one_bit_variation", "setup16_good",
-                 "desc_known", "desc_unknown", "desc_unknown_one_bit_off", "wlength_0", "wlength_lt_len", "wlength_eq_len", "wlength_gt_len",
+                 "desc_known", "desc_unknown", "desc_unknown_one_bit_off", "desc_unknown_alias", "wlength_0", "wlength_lt_len", "wlength_eq_len", "wlength_gt_len",
                  "wlength_len_plus_256", "wlength_cuts_mid_word", "desc_len_not_multiple_of_4", "tx_stalled", "tx_stall_on_last_word",
                  "collection_real", "collection_list", "single_descriptor_collection"]
 REQUIRED_EVENTS = ["packets_sent", "received_strobes", "fields_compared", "descriptor_requests", "descriptor_bytes_compared",
@@ -409,6 +421,13 @@ def handler_session(rng, res):
             key = (v >> 8, v & 0xFF)
             if key not in table:
                 res.bin("desc_unknown_one_bit_off")
+        elif k < 0.94:
+            # aliases a sloppy selector would accept: type or index of a present descriptor alone, or mixed from two of them
+            (t, i), (t2, i2) = rng.choice(keys), rng.choice(keys)
+            key = rng.choice([(0, i), (t, 0), (t, i2), (t2, i), (i, t), (0, t), (i, 0)])
+            key = (int(key[0]) & 0xFF, int(key[1]) & 0xFF)
+            if key not in table:
+                res.bin("desc_unknown_alias")
         else:
             key = (rng.randint(0, 255), rng.randint(0, 255))
         ln = len(table[key]) if key in table else rng.choice(COMMON_LENS)
